@@ -508,7 +508,8 @@ func C20(tier Tier) int {
 		merge[i] = NewEnum()
 	}
 	n := len(specs)
-	third := []accSpec{{1, 2, 1, 3, 3, 0, 3, 1}, {0, 0, 0, 1, 2, 0, 1, 0}}
+	// the accounts merged last: two without code, one with each code / code-metadata value
+	third := []accSpec{{1, 2, 1, 3, 3, 0, 3, 1}, {0, 0, 0, 1, 2, 0, 1, 0}, {1, 0, 0, 2, 2, 2, 3, 0}, {0, 1, 1, 0, 0, 1, 0, 0}}
 	Parallel(n, func(wk, i int) {
 		e := merge[wk]
 		for j := 0; j < n; j++ {
